@@ -25,7 +25,8 @@ def decide(prop, tier, lean_targets, correspond, assumptions, level="proof", ext
     forb = scan_forbidden()
     if forb:
         problems.append("forbidden tokens in Lean sources: " + "; ".join(forb[:5]))
-    ok, log = lean_build(lean_targets + ["ddv-driver"])
+    dok, dlog = lean_build(["ddv-driver"])          # the executable model (also runs the table translator)
+    ok, log = lean_build(lean_targets) if dok else (False, dlog)
     if not ok:
         problems.append("lake build failed: " + log[-1500:])
     thms, aok, alog, bad = ({}, False, "", {})
@@ -39,8 +40,9 @@ def decide(prop, tier, lean_targets, correspond, assumptions, level="proof", ext
         if not cok:
             problems.append("leanchecker failed: " + clog[-1500:])
 
-    res = correspond(tier) if ok else Result()
-    if not ok:
+    if dok:
+        res = correspond(tier)
+    else:
         # the model no longer builds: still run the implementation-side search if possible
         try:
             res = correspond(tier, impl_only=True)
